@@ -240,6 +240,9 @@ func runUnit(w *World, pk *Pkg, c *Contract) (res *UnitResult) {
 			st.vars[pobj] = bv
 		}
 	}
+	if c.Opts["ghostvisit"] != "" {
+		e.ghostInit(st)
+	}
 	e.entry = st.clone()
 	// requires / assumes
 	for _, rq := range c.Requires {
